@@ -208,13 +208,16 @@ RefusalJustified == [][err' # "" =>
 
 (* ==================================== observation ==================================== *)
 SortSet(S) == SetToSortSeq(S, <)
+\* integers and sequences of integers only (booleans as 0 / 1): the projection of a real library reports what it cannot
+\* name as a negative integer, and TLC must be able to compare the two
+B(x) == IF x THEN 1 ELSE 0
 LibObs(L) ==
     IF ~L.alive THEN [alive |-> FALSE]
     ELSE [alive |-> TRUE, ngs |-> L.ngs, ggs |-> L.ggs, nd |-> L.nd, gd |-> L.gd, vel |-> L.vel, pdose |-> L.pdose,
-          meta |-> L.meta, files |-> [k \in Kinds |-> SortSet(L.files[k])], fw |-> L.fw,
+          meta |-> L.meta, files |-> [k \in Kinds |-> SortSet(L.files[k])], fw |-> B(L.fw),
           labels |-> SortSet(LabelsOf(L)),
-          nucs |-> [l \in Labels |-> [n |-> L.nucs[l].n, g |-> L.nucs[l].g, p |-> L.nucs[l].p, cf |-> L.nucs[l].cf,
-                                      owner |-> Present(L, l)]]]
+          nucs |-> [l \in Labels |-> [n |-> L.nucs[l].n, g |-> L.nucs[l].g, p |-> L.nucs[l].p, cf |-> B(L.nucs[l].cf),
+                                      owner |-> B(Present(L, l))]]]
 Obs == [libs |-> [i \in 1..(NSrc + 1) |-> LibObs(lib[i - 1])]]
 SrcJson(d) == [kind |-> d.kind, labs |-> SortSet(d.labs), ngs |-> d.ngs, ggs |-> d.ggs, nd |-> d.nd, gd |-> d.gd,
                meta |-> d.meta, fw |-> d.fw]
